@@ -224,6 +224,32 @@ where
     }
 }
 
+/// Verification hooks: construct a map in, and observe, an arbitrary internal
+/// state, so that checks can take one step from any valid state rather than
+/// replaying histories. Compiled only with
+/// `--cfg smlxl_storage_layout_extractor_verif`.
+#[cfg(smlxl_storage_layout_extractor_verif)]
+impl<K, V> VectorMap<K, V>
+where
+    K: ToUniqueIndex,
+{
+    /// Builds a map directly from its backing buffer and recorded size.
+    #[must_use]
+    pub fn verif_from_parts(data: Vec<Option<V>>, size: usize) -> Self {
+        Self {
+            phantom: PhantomData,
+            data,
+            size,
+        }
+    }
+
+    /// Gets the backing buffer and the recorded size of the map.
+    #[must_use]
+    pub fn verif_parts(&self) -> (&Vec<Option<V>>, usize) {
+        (&self.data, self.size)
+    }
+}
+
 impl<K, V> Default for VectorMap<K, V>
 where
     K: ToUniqueIndex,
